@@ -113,11 +113,11 @@ func (p *Program) bindClauseAt(c *Contract, cl *Clause, pos tokenPos, extra []st
 func (x *fnExec) notNew(v Val) {
 	switch v.K {
 	case VPtr:
-		x.facts = append(x.facts, Fact{x.next(), Not(App("newobj", SBool, v.Ref)), false})
+		x.facts = append(x.facts, Fact{x.next(), Not(App("newobj", SBool, v.Ref)), false, ""})
 	case VSlice:
-		x.facts = append(x.facts, Fact{x.next(), Not(App("newobj", SBool, v.base())), false})
+		x.facts = append(x.facts, Fact{x.next(), Not(App("newobj", SBool, v.base())), false, ""})
 	case VIface:
-		x.facts = append(x.facts, Fact{x.next(), Not(App("newobj", SBool, v.Fs[1].T)), false})
+		x.facts = append(x.facts, Fact{x.next(), Not(App("newobj", SBool, v.Fs[1].T)), false, ""})
 	case VStruct, VTuple:
 		for _, f := range v.Fs {
 			x.notNew(f)
@@ -377,6 +377,7 @@ type Config struct {
 	Jobs     int
 	Verbose  bool
 	KeepSMT  string
+	Fast     bool // development: main query (and its quantified retry) only; no staged, exact or case-split attempts
 }
 
 func termSize(roots []*Term) int {
@@ -408,6 +409,9 @@ func candidates(roots []*Term) map[*Sort][]*Term {
 			for _, a := range t.Args {
 				add(a)
 			}
+		case "bvlshr", "bvshl", "bvashr":
+			// shift amounts: bit positions, the natural witnesses for facts quantified over bit indices
+			add(t.Args[1])
 		case "bvult", "bvule", "bvslt", "bvsle", "bvugt", "bvuge", "bvsgt", "bvsge", "=":
 			for _, a := range t.Args {
 				if a.S.K == KBV {
@@ -420,6 +424,270 @@ func candidates(roots []*Term) map[*Sort][]*Term {
 }
 
 var termMu sync.Mutex
+
+// pathDNF expands a path condition built from and/or over literals into its disjuncts (each a list of literals);
+// nil when there are more than max of them or a sub-term is not worth expanding.
+func pathDNF(t *Term, max int) [][]*Term {
+	var rec func(t *Term) [][]*Term
+	rec = func(t *Term) [][]*Term {
+		switch t.Op {
+		case "or":
+			var out [][]*Term
+			for _, a := range t.Args {
+				r := rec(a)
+				if r == nil {
+					return nil
+				}
+				out = append(out, r...)
+				if len(out) > max {
+					return nil
+				}
+			}
+			return out
+		case "and":
+			out := [][]*Term{{}}
+			for _, a := range t.Args {
+				r := rec(a)
+				if r == nil {
+					return nil
+				}
+				var next [][]*Term
+				for _, x := range out {
+					for _, y := range r {
+						next = append(next, append(append([]*Term{}, x...), y...))
+					}
+				}
+				out = next
+				if len(out) > max {
+					return nil
+				}
+			}
+			return out
+		}
+		return [][]*Term{{t}}
+	}
+	return rec(t)
+}
+
+// solveIndex solves the index pattern pat (a sum in which the bound variable v occurs once) against the ground index t.
+func solveIndex(pat, v, t *Term) *Term {
+	if pat.S != t.S {
+		return nil
+	}
+	if pat == v {
+		return t
+	}
+	if pat.Op != "bvadd" || len(pat.Args) != 2 {
+		return nil
+	}
+	a, b := pat.Args[0], pat.Args[1]
+	inA, inB := containsTerm(a, v), containsTerm(b, v)
+	switch {
+	case inA && !inB && !containsBVar(b):
+		return solveIndex(a, v, subTerm(t, b))
+	case inB && !inA && !containsBVar(a):
+		return solveIndex(b, v, subTerm(t, a))
+	}
+	return nil
+}
+
+func containsTerm(t, v *Term) bool {
+	found := false
+	Subterms([]*Term{t}, func(s *Term) {
+		if s == v {
+			found = true
+		}
+	})
+	return found
+}
+
+// subTerm builds t-x, cancelling x when it is a summand of t.
+func subTerm(t, x *Term) *Term {
+	var drop func(t *Term) *Term
+	drop = func(t *Term) *Term {
+		if t.Op != "bvadd" || len(t.Args) != 2 {
+			return nil
+		}
+		a, b := t.Args[0], t.Args[1]
+		if a == x {
+			return b
+		}
+		if b == x {
+			return a
+		}
+		if r := drop(a); r != nil {
+			return BVBin("bvadd", r, b)
+		}
+		if r := drop(b); r != nil {
+			return BVBin("bvadd", a, r)
+		}
+		return nil
+	}
+	if t == x {
+		return BVU(0, t.S.W)
+	}
+	if r := drop(t); r != nil {
+		return r
+	}
+	if x.Op == "lit" && x.Lit.Sign() == 0 {
+		return t
+	}
+	return BVBin("bvsub", t, x)
+}
+
+// triggerInstances instantiates quantified hypotheses by matching their array-read patterns against the ground
+// array reads present in the query (same array term, index solved for the bound variable). Bound variables that
+// occur in no such pattern range over the comparison operands of the goal. Three rounds; instances feed the next round.
+func triggerInstances(qf []*QFact, roots []*Term, seed []*Term) []*Term {
+	type pat struct {
+		arr, idx *Term
+	}
+	pats := make([]map[*Term][]pat, len(qf))
+	for qi, q := range qf {
+		pats[qi] = map[*Term][]pat{}
+		Subterms([]*Term{q.body, q.pc}, func(t *Term) {
+			if t.Op != "select" || containsBVar(t.Args[0]) || !containsBVar(t.Args[1]) {
+				return
+			}
+			for _, v := range q.vars {
+				if containsTerm(t.Args[1], v) {
+					only := true
+					for _, w := range q.vars {
+						if w != v && containsTerm(t.Args[1], w) {
+							only = false
+						}
+					}
+					if only && solveIndex(t.Args[1], v, v) != nil {
+						pats[qi][v] = append(pats[qi][v], pat{t.Args[0], t.Args[1]})
+					}
+				}
+			}
+		})
+	}
+	seedC := candidates(seed)
+	var insts []*Term
+	known := map[int]bool{}
+	pool := roots
+	for round := 0; round < 3; round++ {
+		reads := map[*Term][]*Term{}
+		seen := map[int]bool{}
+		Subterms(append(append([]*Term{}, pool...), insts...), func(t *Term) {
+			if t.Op == "select" && !containsBVar(t) && !seen[t.id] {
+				seen[t.id] = true
+				reads[t.Args[0]] = append(reads[t.Args[0]], t.Args[1])
+			}
+		})
+		var newInsts []*Term
+		for qi, q := range qf {
+			lists := make([][]*Term, len(q.vars))
+			total := 1
+			for vi, v := range q.vars {
+				have := map[int]bool{}
+				var l []*Term
+				if ps := pats[qi][v]; len(ps) > 0 {
+					for _, p := range ps {
+						for _, t := range reads[p.arr] {
+							if c := solveIndex(p.idx, v, t); c != nil && !have[c.id] && len(l) < 40 {
+								have[c.id] = true
+								l = append(l, c)
+							}
+						}
+					}
+				} else {
+					for _, c := range seedC[v.S] {
+						if len(l) < 16 {
+							l = append(l, c)
+						}
+					}
+				}
+				lists[vi] = l
+				total *= len(l)
+			}
+			if total == 0 || total > 2000 {
+				if total > 2000 {
+					for vi := range lists {
+						if len(lists[vi]) > 12 {
+							lists[vi] = lists[vi][:12]
+						}
+					}
+				} else {
+					continue
+				}
+			}
+			idx := make([]int, len(lists))
+			for {
+				m := map[*Term]*Term{}
+				for vi, v := range q.vars {
+					m[v] = lists[vi][idx[vi]]
+				}
+				inst := Implies(q.pc, Subst(q.body, m))
+				if !known[inst.id] && inst != True {
+					known[inst.id] = true
+					newInsts = append(newInsts, inst)
+				}
+				k := 0
+				for k < len(idx) {
+					idx[k]++
+					if idx[k] < len(lists[k]) {
+						break
+					}
+					idx[k] = 0
+					k++
+				}
+				if k == len(idx) {
+					break
+				}
+			}
+		}
+		if len(newInsts) == 0 {
+			break
+		}
+		insts = append(insts, newInsts...)
+		if len(insts) > 4000 {
+			break
+		}
+	}
+	return insts
+}
+
+// isContractOrigin: the quantified fact comes from a clause of a contract (not from the engine's model of append, copy, ranges).
+func isContractOrigin(origin string) bool {
+	for _, k := range []string{"requires#", "ensures#", "assume#", "invariant#"} {
+		if strings.HasPrefix(origin, k) {
+			return true
+		}
+	}
+	return false
+}
+
+func (x *fnExec) proofOnly(o *Obl) bool {
+	if x.C == nil {
+		return false
+	}
+	for lbl := range x.C.ProofOnly {
+		if strings.HasSuffix(o.Name, "#"+lbl) || strings.HasSuffix(o.Name, ":"+lbl) {
+			return true
+		}
+	}
+	return false
+}
+
+// proofUses returns the labels named by a "proof <label> uses ..." directive for this obligation, or nil.
+func (x *fnExec) proofUses(o *Obl) map[string]bool {
+	if x.C == nil || len(x.C.ProofUses) == 0 {
+		return nil
+	}
+	for lbl, ls := range x.C.ProofUses {
+		if strings.HasSuffix(o.Name, "#"+lbl) || strings.HasSuffix(o.Name, ":"+lbl) {
+			m := map[string]bool{}
+			for _, l := range ls {
+				m[l] = true
+			}
+			return m
+		}
+	}
+	return nil
+}
 
 // splitConds picks branch conditions to case-split on: the atoms of the merge conditions (ite guards) in the goal
 // that are not already part of the obligation's own path condition; atoms seen in both polarities come first.
@@ -636,7 +904,11 @@ func (x *fnExec) buildQuery(o *Obl, useQuant bool, exact bool) (smt string, getV
 	if os.Getenv("SCTPVC_NOPRUNE") != "" {
 		ob = nil
 	}
+	usesG, onlyG := x.proofUses(o), x.proofOnly(o)
 	for _, f := range x.facts {
+		if onlyG && usesG != nil && !o.Smoke && f.origin != "" && isContractOrigin(f.origin) && !usesG[f.origin[strings.Index(f.origin, "#")+1:]] {
+			continue
+		}
 		if f.seq < o.seq && (o.Smoke || f.global || x.canPrecede(x.blockAt(f.seq), ob)) {
 			cs = append(cs, &cand{t: f.t, syms: heapSyms(f.t)})
 		} else if f.seq < o.seq && os.Getenv("SCTPVC_DEBUG") != "" && !o.Smoke {
@@ -644,7 +916,11 @@ func (x *fnExec) buildQuery(o *Obl, useQuant bool, exact bool) (smt string, getV
 		}
 	}
 	var allQ []*QFact
+	uses := x.proofUses(o)
 	for _, q := range x.qfacts {
+		if uses != nil && !o.Smoke && isContractOrigin(q.origin) && !uses[q.origin[strings.Index(q.origin, "#")+1:]] {
+			continue
+		}
 		if q.seq < o.seq && (o.Smoke || q.global || x.canPrecede(x.blockAt(q.seq), ob)) {
 			cs = append(cs, &cand{t: q.body, syms: heapSyms(Implies(q.pc, q.body)), q: q})
 		}
@@ -690,6 +966,15 @@ func (x *fnExec) buildQuery(o *Obl, useQuant bool, exact bool) (smt string, getV
 		hypT = And(Subst(o.hyp, x.caseSub), x.caseAssert)
 		goalT = Subst(o.goal, x.caseSub)
 	}
+	if os.Getenv("SCTPVC_DUMP") != "" && !o.Smoke && x.instLevel == 4 {
+		fmt.Fprintf(os.Stderr, "DUMP %s site=%s\n  GOAL %s\n  HYP %s\n", o.Name, o.Site, goalT.String(), hypT.String())
+		for _, g := range ground {
+			fmt.Fprintf(os.Stderr, "  FACT %s\n", g.String())
+		}
+		for _, q := range allQ {
+			fmt.Fprintf(os.Stderr, "  QFACT[%s] pc=%s body=%s\n", q.origin, q.pc.String(), q.body.String())
+		}
+	}
 	roots = append(roots, ground...)
 	roots = append(roots, hypT, goalT)
 	// allocation distinctness for terms that occur
@@ -701,6 +986,13 @@ func (x *fnExec) buildQuery(o *Obl, useQuant bool, exact bool) (smt string, getV
 	}
 	usedQ = len(allQ)
 	var insts []*Term
+	if len(qf) > 0 && x.instLevel == 4 {
+		insts = triggerInstances(qf, append(append([]*Term{}, ground...), hypT, goalT), []*Term{goalT, hypT})
+		if os.Getenv("SCTPVC_DEBUG") != "" {
+			fmt.Fprintf(os.Stderr, "TRIG %s site=%s qfacts=%d insts=%d\n", o.Name, o.Site, len(qf), len(insts))
+		}
+		qf = nil
+	}
 	if len(qf) > 0 {
 		// two rounds of instantiation (one, from the goal's own terms only, at level 1)
 		known := map[int]bool{}
@@ -830,7 +1122,10 @@ func (x *fnExec) buildQuery(o *Obl, useQuant bool, exact bool) (smt string, getV
 		w.assert(t)
 	}
 	if useQuant {
-		for _, q := range qf {
+		for _, q := range allQ {
+			if x.instLevel == 0 {
+				break
+			}
 			w.assert(Implies(q.pc, Forall(q.vars, q.body)))
 		}
 	}
@@ -913,8 +1208,10 @@ func (x *fnExec) discharge(cfg Config, filter func(o *Obl) bool) []*OblResult {
 				results[i] = siteResult{o, SolveResult{Status: "sat", Backend: "skipped"}, 0}
 				continue
 			}
+			termMu.Lock()
 			x.instLevel = 2
 			smt, _, _, _ := x.buildQuery(o, false, false)
+			termMu.Unlock()
 			to := cfg.TimeoutS
 			if to > 15 {
 				to = 15
@@ -934,7 +1231,14 @@ func (x *fnExec) discharge(cfg Config, filter func(o *Obl) bool) []*OblResult {
 		x.instLevel = 2
 		smt, gv, nq, nop := x.buildQuery(o, false, false)
 		var staged []string
-		if nq > 0 && len(smt) > 400000 {
+		if nq > 0 {
+			// first attempt: instances found by matching the read patterns of the quantified hypotheses (few, relevant)
+			x.instLevel = 4
+			s4, _, _, _ := x.buildQuery(o, false, false)
+			x.instLevel = 2
+			staged = []string{s4}
+		}
+		if nq > 0 && len(smt) > 400000 && !cfg.Fast {
 			// big query: cheaper attempts first: no instances of the quantified hypotheses, then instances at the goal's own terms
 			x.instLevel = 0
 			s0, _, _, _ := x.buildQuery(o, false, false)
@@ -943,7 +1247,7 @@ func (x *fnExec) discharge(cfg Config, filter func(o *Obl) bool) []*OblResult {
 			x.instLevel = 3
 			s3, _, _, _ := x.buildQuery(o, false, false)
 			x.instLevel = 2
-			staged = []string{s0, s1, s3}
+			staged = append(staged, s0, s1, s3)
 		}
 		var smtExact string
 		if nop > 0 {
@@ -966,6 +1270,56 @@ func (x *fnExec) discharge(cfg Config, filter func(o *Obl) bool) []*OblResult {
 			defer wg.Done()
 			defer func() { <-sem }()
 			name := fmt.Sprintf("%s.%d", o.Name, i)
+			triedPaths := false
+			pathSplit := func() (SolveResult, bool) {
+				triedPaths = true
+				// path split: the obligation's path condition is a disjunction of the paths merged on the way; each
+				// path is checked on its own, with every branch condition it fixes replaced by its value
+				if paths := pathDNF(o.hyp, 8); len(paths) >= 2 {
+					n := len(paths)
+					q := make([]string, n)
+					qq := make([]string, n)
+					termMu.Lock()
+					for k, lits := range paths {
+						x.caseSub = map[*Term]*Term{}
+						x.caseAssert = True
+						for _, l := range lits {
+							if l.Op == "not" {
+								x.caseSub[l.Args[0]] = False
+							} else {
+								x.caseSub[l] = True
+							}
+							x.caseAssert = And(x.caseAssert, l)
+						}
+						x.instLevel = 4
+						q[k], _, _, _ = x.buildQuery(o, false, false)
+						x.instLevel = 2
+						qq[k], _, _, _ = x.buildQuery(o, false, false)
+					}
+					x.caseSub, x.caseAssert = nil, nil
+					termMu.Unlock()
+					ok := true
+					secs := 0.0
+					be := ""
+					for k := 0; k < n && ok; k++ {
+						rk := solve(fmt.Sprintf("%s.p%d", name, k), q[k], nil, cfg.TimeoutS, false)
+						secs += rk.Secs
+						if rk.Status != "unsat" {
+							rk = solve(fmt.Sprintf("%s.p%df", name, k), qq[k], nil, cfg.TimeoutS, false)
+							secs += rk.Secs
+						}
+						ok = rk.Status == "unsat"
+						be = rk.Backend
+						if os.Getenv("SCTPVC_DEBUG") != "" {
+							fmt.Fprintf(os.Stderr, "PATHSPLIT %s path=%d/%d -> %s (%.1fs)\n", name, k, n, rk.Status, rk.Secs)
+						}
+					}
+					if ok {
+						return SolveResult{Status: "unsat", Backend: be, Secs: secs}, true
+					}
+				}
+				return SolveResult{}, false
+			}
 			for k, s := range staged {
 				to := cfg.TimeoutS / 3
 				if to < 5 {
@@ -977,6 +1331,16 @@ func (x *fnExec) discharge(cfg Config, filter func(o *Obl) bool) []*OblResult {
 					results[i] = siteResult{o, rs, nq}
 					mu.Unlock()
 					return
+				}
+				if k == 0 && !o.Smoke {
+					// the cheap attempt failed: before the heavy ones, try the paths one by one
+					if rp, ok := pathSplit(); ok {
+						rp.Secs += rs.Secs
+						mu.Lock()
+						results[i] = siteResult{o, rp, nq}
+						mu.Unlock()
+						return
+					}
 				}
 			}
 			r := solve(name, smt, gv, cfg.TimeoutS, cfg.WantAll && !o.Smoke)
@@ -990,7 +1354,7 @@ func (x *fnExec) discharge(cfg Config, filter func(o *Obl) bool) []*OblResult {
 					r.Output = "sat on instantiated query only (quantified hypotheses not fully used)\n" + r.Output
 				}
 			}
-			if nop > 0 && r.Status != "unsat" && !o.Smoke {
+			if nop > 0 && r.Status != "unsat" && !o.Smoke && !cfg.Fast {
 				// opaque operators over-approximate: only the exact query can refute
 				r3 := solve(name+".x", smtExact, gv, cfg.TimeoutS, false)
 				if r3.Status == "unsat" || r3.Status == "sat" {
@@ -1000,7 +1364,13 @@ func (x *fnExec) discharge(cfg Config, filter func(o *Obl) bool) []*OblResult {
 					r.Output = "sat only with opaque remainder (over-approximation)\n" + r.Output
 				}
 			}
-			if r.Status != "unsat" && r.Status != "sat" && !o.Smoke {
+			if r.Status != "unsat" && r.Status != "sat" && !o.Smoke && !triedPaths {
+				if rp, ok := pathSplit(); ok {
+					rp.Secs += r.Secs
+					r = rp
+				}
+			}
+			if r.Status != "unsat" && r.Status != "sat" && !o.Smoke && !cfg.Fast {
 				// case split on a merge condition of the goal: each half is simplified under the assumed value,
 				// which lets the instantiation patterns see through the ite terms of merged paths
 				conds := splitConds(o.goal, o.hyp)
@@ -1190,6 +1560,28 @@ func verifyFunction(p *Program, c *Contract, cfg Config, filter func(o *Obl) boo
 			continue
 		}
 		rep.Results = append(rep.Results, r)
+	}
+	// an assertion marked LEMMA is a hypothesis for everything after it: when it is not proved, nothing else is
+	for _, ac := range c.AtStores {
+		if !hasTag(ac.Clause.Tags, "LEMMA") {
+			continue
+		}
+		name := c.Key + ":at store " + strings.TrimPrefix(ac.Callee, "map:") + ":assert#" + ac.Clause.Label
+		ran, proved := false, false
+		for _, r := range rep.Results {
+			if r.Name == name {
+				ran = true
+				proved = r.Status == "proved"
+			}
+		}
+		if ran && !proved {
+			for _, r := range rep.Results {
+				if r.Name != name && r.Status == "proved" && r.Kind != "safe" {
+					r.Status = "unknown"
+					r.Output = "relies on the lemma assert#" + ac.Clause.Label + ", which is not proved"
+				}
+			}
+		}
 	}
 	// a postcondition proved with the help of a LEMMA clause that is itself not proved is not proved
 	broken := ""
